@@ -6,8 +6,10 @@ does not re-test the pure properties C01/C03/C08 through the back door.
 
 Types:  ["int"] ["float"] ["arr", "int"|"float", n] ["arr2"] (= int[2][3])
         ["struct"] (= P {int x; float y;})  ["vec", "int"|"float", n]
+        ["sq", n] (= int[n][n], locals)  ["structq"] (= Q {P p; int[2] a; int z;}, locals)
 Exprs:  ["lit", v] ["var", name] ["idx", name, e] ["idx2", name, e1, e2]
-        ["fld", name, field] ["bin", op, a, b] ["call", fname, [e...]]
+        ["fld", name, field] ["fld2", name, f1, f2] ["fldidx", name, field, e]
+        ["bin", op, a, b] ["call", fname, [e...]]
 Stmts:  ["decl", type, name, init|None] ["assign", lvalue, "="|"+="|"-="|"*=", e]
         ["swz", name, comp, e] ["incdec", "++"|"--", name, postfix?]
         ["if", cond, then, else|None] ["for", var, bound, body]
@@ -15,6 +17,7 @@ Stmts:  ["decl", type, name, init|None] ["assign", lvalue, "="|"+="|"-="|"*=", e
         ["return", e|None] ["expr", e]
 """
 import copy
+import json
 
 STRUCT_FIELDS = [["x", "int"], ["y", "float"]]
 
@@ -31,6 +34,10 @@ def type_src(t):
         return "P"
     if k == "vec":
         return f"{t[1]}{t[2]}"
+    if k == "sq":
+        return f"int[{t[1]}][{t[1]}]"
+    if k == "structq":
+        return "Q"
     raise ValueError(t)
 
 
@@ -46,6 +53,10 @@ def zero(t):
         return {"x": 0, "y": 0}
     if k == "vec":
         return [0] * t[2]
+    if k == "sq":
+        return [[0] * t[1] for _ in range(t[1])]
+    if k == "structq":
+        return {"p": {"x": 0, "y": 0}, "a": [0, 0], "z": 0}
     raise ValueError(t)
 
 
@@ -89,6 +100,10 @@ def esrc(e):
         return f"{e[1]}[{esrc(e[2])}][{esrc(e[3])}]"
     if k == "fld":
         return f"{e[1]}.{e[2]}"
+    if k == "fld2":
+        return f"{e[1]}.{e[2]}.{e[3]}"
+    if k == "fldidx":
+        return f"{e[1]}.{e[2]}[{esrc(e[3])}]"
     if k == "bin":
         return f"({esrc(e[2])} {e[1]} {esrc(e[3])})"
     if k == "call":
@@ -143,6 +158,8 @@ def function_src(f):
 
 def program_src(prog):
     out = ["struct P { int x; float y; }\n"]
+    if '"structq"' in json.dumps(prog["functions"]):
+        out.append("struct Q { P p; int[2] a; int z; }\n")
     for name, t in prog["globals"]:
         out.append(f"{type_src(t)} {name};\n")
     for f in prog["functions"]:
@@ -211,7 +228,7 @@ class Model:
                 raise Fault("index")
             return a[i]
         if k == "idx2":
-            a = self.g[e[1]]
+            a = L[e[1]] if e[1] in L else self.g[e[1]]
             i = self.ev(e[2], L)
             j = self.ev(e[3], L)
             if not (0 <= i < len(a)) or not (0 <= j < len(a[i])):
@@ -219,6 +236,14 @@ class Model:
             return a[i][j]
         if k == "fld":
             return (L[e[1]] if e[1] in L else self.g[e[1]])[e[2]]
+        if k == "fld2":
+            return (L[e[1]] if e[1] in L else self.g[e[1]])[e[2]][e[3]]
+        if k == "fldidx":
+            a = (L[e[1]] if e[1] in L else self.g[e[1]])[e[2]]
+            i = self.ev(e[3], L)
+            if not (0 <= i < len(a)):
+                raise Fault("index")
+            return a[i]
         if k == "call":
             args = [self.ev(a, L) for a in e[2]]
             return self.call(e[1], args)
@@ -272,13 +297,29 @@ class Model:
             if not isl:
                 self.snap()
         elif k == "idx2":
-            a = self.g[lv[1]]
+            isl = lv[1] in L
+            a = L[lv[1]] if isl else self.g[lv[1]]
             i = self.ev(lv[2], L)
             j = self.ev(lv[3], L)
             if not (0 <= i < len(a)) or not (0 <= j < len(a[i])):
                 raise Fault("index")
             a[i][j] = v
-            self.snap()
+            if not isl:
+                self.snap()
+        elif k == "fld2":
+            isl = lv[1] in L
+            (L[lv[1]] if isl else self.g[lv[1]])[lv[2]][lv[3]] = v
+            if not isl:
+                self.snap()
+        elif k == "fldidx":
+            isl = lv[1] in L
+            a = (L[lv[1]] if isl else self.g[lv[1]])[lv[2]]
+            i = self.ev(lv[3], L)
+            if not (0 <= i < len(a)):
+                raise Fault("index")
+            a[i] = v
+            if not isl:
+                self.snap()
         elif k == "fld":
             isl = lv[1] in L
             (L[lv[1]] if isl else self.g[lv[1]])[lv[2]] = v
